@@ -54,12 +54,12 @@ class Universe:
         self.typed = None
         self.bad = []  # (tag, factory, expected family)
         if name == "selfstr":
-            self.specs = ["a", "b", "c", "d"]
+            self.specs = ["a", "b", "", "d"]
             self.make = lambda s: s
             self.kf = lambda it: it
             self.absent_key = "zz"
         elif name == "selfint":
-            self.specs = [1, 2, 3, 7]
+            self.specs = [1, 0, 3, 7]
             self.make = lambda s: s
             self.kf = lambda it: it
             self.absent_key = 99
